@@ -196,7 +196,7 @@ def mk_user(ci, reverse):
                 {'output.format': False, 'output.reverseAttributes': reverse})}),
                 (lambda toks: set_literal(toks, 'QZ1', t)) if uses_t else None)
             exp = [t if p == 0 else p for p in shape]
-            if reverse and abbr.startswith('baz'):
+            if reverse and (abbr.startswith('baz') or 'nest' in abbr):
                 return 'skip'      # attribute order under reverse mode is checked by C03
             if wrong:
                 exp.append('!')
@@ -310,7 +310,7 @@ def jobs(tier):
                                    bound='table-exhaustive', budget=900 if q else 3000, weight=100))
     for ci in range(len(USER_CASES)):
         for rev in ((False,) if q else (False, True)):
-            if rev and USER_CASES[ci][0].startswith('baz'):
+            if rev and (USER_CASES[ci][0].startswith('baz') or 'nest' in USER_CASES[ci][0]):
                 continue      # attribute order under reverse mode is C03's subject: these cases would be vacuous
             out.append(Job('C14-c/user/%s/rev=%d' % (USER_CASES[ci][0], rev), 'vf.props.c14:mk_user', dict(ci=ci, reverse=rev),
                            shape='H', bound='3 user snippets', budget=600, weight=20))
